@@ -195,8 +195,12 @@ impl ContainerValues {
             self.subset_tracker.recent_updates(table_id, table)
         });
         let mut summary = if parallelize_inter_container_op(self.data.next_id().index()) {
+            #[cfg(feature = "verif-hooks")]
+            egglog_concurrency::verif::probe("container_rebuild_inter_parallel");
             parallel::map_dense_id_map_mut(&mut self.data, |_, env| {
                 let mut exec_state = exec_state.clone();
+                #[cfg(feature = "verif-hooks")]
+                egglog_concurrency::verif::yield_point(egglog_concurrency::verif::site::CONTAINER);
                 env.apply_rebuild(
                     table,
                     &*rebuilder,
@@ -357,6 +361,8 @@ impl<C: ContainerValue> DynamicContainerEnv for ContainerEnv<C> {
                 parallelize_intra_container_op(self.to_id.len()),
             )
         {
+            #[cfg(feature = "verif-hooks")]
+            egglog_concurrency::verif::probe("container_rebuild_incremental");
             return self.apply_rebuild_incremental(
                 table,
                 rebuilder,
@@ -617,6 +623,8 @@ impl<C: ContainerValue> ContainerEnv<C> {
         // `to_reinsert` isn't a flat vector. It's instead a vector of queues - one per
         // destination map shard. This lets us do a bulk insertion in parallel without having
         // to grab a lock per container.
+        #[cfg(feature = "verif-hooks")]
+        egglog_concurrency::verif::probe("container_rebuild_nonincremental_parallel");
         let mut to_reinsert =
             IdVec::<usize /* to_id shard */, SegQueue<(C, Value, bool)>>::default();
         to_reinsert.resize_with(self.to_id.shards().len(), Default::default);
@@ -763,6 +771,10 @@ impl<C: ContainerValue> ContainerEnv<C> {
 }
 
 fn incremental_rebuild(uf_size: usize, table_size: usize, parallel: bool) -> bool {
+    #[cfg(feature = "verif-hooks")]
+    if let Some(v) = egglog_concurrency::verif::knob("container_incremental_rebuild") {
+        return v != 0;
+    }
     if parallel {
         table_size > 1000 && uf_size * 512 <= table_size
     } else {
